@@ -367,6 +367,8 @@ def _conv(n, by_idx, names):
                 flat.extend(it.items)
             else:
                 flat.append(it)
+        if len(flat) == 1:
+            return flat[0]
         return Seq(flat)
     if T == "Branch":
         return Alt([_conv(b, by_idx, names) for b in n.branches])
